@@ -45,7 +45,7 @@ F("DOC-negative-int-as-float", DOCP,
 F("FUNC-negative-int-as-float", ALLP,
   "function/method: the docstring of the emitted function carries no type, so `Defaults to -5` is read as a float and that "
   "float (and the inferred type float) overrides the signature's int default and annotation",
-  ["DefaultKept", "TypKept", "ProseKept.ann"], obs=["other", "float", "diff"], when={"k": FUN, "dd": True},
+  ["DefaultKept", "TypKept", "ProseKept.ann"], obs=["other", "float", "diff", "Opt:float"], when={"k": FUN, "dd": True},
   slot=[ANY, "own", ANY, ANY, "intNeg"])
 F("DOC-empty-string-default", DOCP,
   "an empty-string default renders as `Defaults to ` with nothing after it; prose and default are mangled on the way back",
@@ -249,11 +249,15 @@ F("NUMPYDOC-wrapped-return-prose", ALLP,
   "the return entry",
   ["RetKept.base", "RetKept.stop", "RetKept.ann", "RetKept.def", "ConfigTransparent"], when={"k": "numpydoc", "wrap": True, "retwrap": True},
   ret=[True, ANY, "own", ANY, ANY, ANY])
+F("WRAP-reference-already-deviates", ALLP,
+  "the rendering without word wrap already deviates from the description (a clause failed at its own step, reported there); the "
+  "wrapped rendering is compared with that reference and differs from it",
+  ["ConfigTransparent"], when={"ref_failed": True})
 _BRK = ("word wrap breaks the line between `Defaults` and `to`: extract_default only knows `defaults to ` / `defaults to\\n`, so "
         "the default is no longer found and the sentence stays in the prose - ")
 F("WRAP-break-inside-announcement-numpydoc-param", ALLP, _BRK + "numpydoc parameters",
   ["DefaultKept", "ProseKept.ann", "ProseKept.stop", "ConfigTransparent"],
-  obs=["absent", "diff", True, ["dann", "def"], ["dann", "def", "typ"], ["dann", "def", "ret.def"], ["dann", "def", "ret.def", "typ"]],
+  obs=["absent", "none", "diff", True, ["dann", "def"], ["dann", "def", "typ"], ["dann", "def", "ret.def"], ["dann", "def", "ret.def", "typ"]],
   when={"k": "numpydoc", "wrap": True, "brk": True, "step": "parse"})
 F("WRAP-break-inside-announcement-rest-return", ALLP, _BRK + "ReST return entry",
   ["RetKept.def", "RetKept.ann", "RetKept.stop", "ConfigTransparent"],
@@ -280,6 +284,7 @@ FIXED += [
 ]
 
 FIXED += [
+    "fixed: property=C18 1108a03 word wrap broke a hyphenated word after its hyphen (`ml-` / `prepare`); re-joined it came back as `ml- prepare`",
     "fixed: property=C18 2e569ff numpydoc: wrapped prose lost the indentation of its continuation lines; the parser read them as new entries",
     "fixed: property=C10 1f22a3d sync re-emitted and rewrote the file holding the source of truth (the truth was conformed to itself)",
     "fixed: property=C09 2b090a1 sync raised TypeError when a function target file had to be created (_default_options not passed on)",
